@@ -223,7 +223,7 @@ def plan():
                  cuts=[CUT_LISTENER, "ClusterState::compute_partial_delta_respecting_mtu replaced by its contract: returns a delta of ANY announced length in 1..=mtu (what ser_ub_*/snd_full_* establish for the real one)",
                        "Chitchat::compute_digest replaced by 'any digest of %d member(s)' (its real serialized_len is used)" % n],
                  bounds={"own_digest_members": n, "peer_digest": "empty", "delta_length": "symbolic 1..=budget"}, desc="SYN-ACK of the real process_message fits 65,507 bytes whenever the delta respects the budget it is handed (finding O-1, fixed)", mem=22, timeout=2400)
-    P["C07"] = [syn_budget(1, ("quick", "thorough")), syn_budget(2, ("thorough",)), ser_ub(3, 5, 3, 8, 3, ("quick", "thorough")), ser_ub(6, 7, 1, 8, 2, ("quick", "thorough")), ser_ub(8, 8, 1, 8, 3, ("quick", "thorough")), ser_ub(8, 8, 8, 8, 3, ("thorough",)), snd_content(0b011, ("quick", "thorough")),
+    P["C07"] = [syn_budget(1, ("quick", "thorough")), ser_ub(3, 5, 3, 8, 3, ("quick", "thorough")), ser_ub(6, 7, 1, 8, 2, ("quick", "thorough")), ser_ub(8, 8, 1, 8, 3, ("quick", "thorough")), ser_ub(8, 8, 8, 8, 3, ("thorough",)), snd_content(0b011, ("quick", "thorough")),
                 snd_decision(False, ("quick", "thorough")), ser_ub(1, 1, 1, 8, 3, ("thorough",)), ser_ub(7, 2, 8, 8, 3, ("thorough",)), ser_ub(16, 3, 14, 16, 3, ("thorough",)), ser_ub(5, 12, 16, 16, 3, ("thorough",)),
                 snd_content(0b111, ("thorough",)), snd_content(0b001, ("thorough",)), snd_content(0b101, ("thorough",)), snd_decision(True, ("thorough",)),
                 snd_full(0b000), snd_full(0b001), snd_pat(0b001, 0b110, "RAA", ("quick", "thorough")), snd_pat(0b001, 0b101, "ARA", ("quick", "thorough"), ["truncated between key-values"]),
